@@ -2,6 +2,7 @@ package props
 
 import (
 	"fmt"
+	"strings"
 
 	"verif/sim/run"
 	"verif/sim/simio"
@@ -127,12 +128,21 @@ func runC16(c *Ctx) []Violation {
 	}
 	finding := func(clause string) string {
 		transient := fault.Kind == simio.FaultTransient
+		interior := lineInterior(w.Input, st.ErrAtOffset)
+		// the csv defect's call site: the reader error comes back as a continuable
+		// "failed to fetch record" result (fileformat/csv/reader.go:52-54)
+		csvSite := false
+		for _, e := range got.Entries {
+			if e.Class == run.ClsContinuable && strings.Contains(e.Err, "failed to fetch record: "+simio.ErrSimIO.Error()) {
+				csvSite = true
+			}
+		}
 		switch {
-		case w.Format == "csv" && c.FindingOpen("csv-io-error-continuable"):
+		case w.Format == "csv" && csvSite && c.FindingOpen("csv-io-error-continuable"):
 			return "csv-io-error-continuable"
-		case w.Format == "fixed-length" && w.Tag("envelope") == "header_footer" && clause == "C16.eof-not-fatal" && c.FindingOpen("fixedlength-headerfooter-io-error-becomes-eof"):
+		case w.Format == "fixed-length" && w.Tag("envelope") == "header_footer" && interior && clause == "C16.eof-not-fatal" && c.FindingOpen("fixedlength-headerfooter-io-error-becomes-eof"):
 			return "fixedlength-headerfooter-io-error-becomes-eof"
-		case (w.Format == "fixed-length" || w.Format == "fixedlength2") && transient && lineInterior(w.Input, st.ErrAtOffset) && c.FindingOpen("fixedlength-transient-error-with-partial-line-swallowed"):
+		case (w.Format == "fixed-length" || w.Format == "fixedlength2") && transient && interior && c.FindingOpen("fixedlength-transient-error-with-partial-line-swallowed"):
 			return "fixedlength-transient-error-with-partial-line-swallowed"
 		}
 		return ""
